@@ -432,18 +432,18 @@ Proof.
       apply map_ext. intros []; reflexivity. }
     pose proof (IS _ _ _ _ s _ [] HC HB HS HLc eq_refl) as R.
     destruct (exec_seq host page_cap m f s (args ++ map zero_of (f_locals fn)) [] (f_body fn))
-      as [s' l' vs|k s' l' vs|s' vs| | |] eqn:E; cbn in R; cbn; auto.
-    + destruct R as (R1 & R2 & R3). cbn in R3. unfold result_ok.
-      destruct (ft_result ft) as [tr|]; destruct vs as [|v0 [|w0 r0]]; cbn in R3; try discriminate; cbn; auto.
-      split; auto. congruence.
+      as [s' l' vs|k s' l' vs|s' vs| | |] eqn:E; cbn in R; try contradiction; try exact I.
+    + destruct R as (R1 & R2 & R3). cbn in R3.
+      destruct (ft_result ft) as [tr|] eqn:ER; destruct vs as [|v0 [|w0 r0]]; cbn in R3; try discriminate;
+        (split; [exact R1|]); unfold result_ok; rewrite ER; [congruence|exact I].
     + destruct R as (R1 & R2 & bt' & vs0 & rest' & RL & -> & RV).
       destruct k as [|k]; cbn in RL; [|destruct k; discriminate].
-      inversion RL; subst bt'. unfold result_ok.
-      destruct (ft_result ft) as [tr|]; destruct vs0 as [|v0 [|w0 r0]]; cbn in RV; try discriminate; cbn; auto.
-      split; auto. congruence.
-    + destruct R as (R1 & vs0 & rest' & -> & RV). cbn in RV. unfold result_ok.
-      destruct (ft_result ft) as [tr|]; destruct vs0 as [|v0 [|w0 r0]]; cbn in RV; try discriminate; cbn; auto.
-      split; auto. congruence.
+      inversion RL; subst bt'.
+      destruct (ft_result ft) as [tr|] eqn:ER; destruct vs0 as [|v0 [|w0 r0]]; cbn in RV; try discriminate;
+        cbn; (split; [exact R1|]); unfold result_ok; rewrite ER; [congruence|exact I].
+    + destruct R as (R1 & vs0 & rest' & -> & RV). cbn in RV.
+      destruct (ft_result ft) as [tr|] eqn:ER; destruct vs0 as [|v0 [|w0 r0]]; cbn in RV; try discriminate;
+        cbn; (split; [exact R1|]); unfold result_ok; rewrite ER; [congruence|exact I].
 Qed.
 
 Lemma type_sound_all f : P_seq f /\ P_instr f /\ P_inv f.
@@ -454,3 +454,104 @@ Proof.
 Qed.
 
 End TS.
+
+(** ** Instantiation and [run] *)
+Section Run.
+Variable host : nat -> list val -> option memory -> host_result.
+Variable page_cap : N.
+Variable m : module.
+
+(** element and data segments fit (what validation guarantees; the specification fails
+    instantiation otherwise) and element entries are existing functions *)
+Definition segments_ok : Prop :=
+  (forall off fs, In (off, fs) (m_elems m) ->
+     exists n, m_table m = Some n /\ (N.to_nat off + length fs <= N.to_nat n)%nat /\
+               Forall (fun fi => func_type m fi <> None) fs) /\
+  match m_mem m with
+  | Some l => forall off bs, In (off, bs) (m_data m) -> (off + N.of_nat (length bs) <= l_min l * page_size)%N
+  | None => m_data m = []
+  end.
+
+Definition entry_ok (e : option nat) : Prop :=
+  match e with Some fi => func_type m fi <> None | None => True end.
+
+Lemma set_nth_len {A} (P : A -> Prop) : forall (l : list A) i x, (i < length l)%nat ->
+  exists l', set_nth l i x = Some l' /\ length l' = length l /\ (Forall P l -> P x -> Forall P l').
+Proof.
+  induction l as [|a l IH]; intros i x H; cbn in H; [lia|].
+  destruct i as [|i]; cbn.
+  - eexists. split; [reflexivity|]. split; [reflexivity|]. intros F Px. inversion F; subst. constructor; auto.
+  - destruct (IH i x ltac:(lia)) as (l' & -> & L & F). eexists. split; [reflexivity|]. split; [cbn; lia|].
+    intros Fa Px. inversion Fa; subst. constructor; auto.
+Qed.
+
+Lemma write_elems_ok : forall fs t off, (off + length fs <= length t)%nat ->
+  Forall entry_ok t -> Forall (fun fi => func_type m fi <> None) fs ->
+  exists t', write_elems t off fs = Some t' /\ length t' = length t /\ Forall entry_ok t'.
+Proof.
+  induction fs as [|fi r IH]; intros t off HL HT HF; cbn [write_elems].
+  - eauto.
+  - cbn in HL. inversion HF; subst.
+    destruct (set_nth_len entry_ok t off (Some fi) ltac:(lia)) as (t1 & -> & L1 & F1).
+    destruct (IH t1 (S off)) as (t' & E & L & F); [lia|auto|auto|].
+    exists t'. split; auto. split; [lia|auto].
+Qed.
+
+Lemma init_table_ok n : forall es t, length t = n ->
+  (forall off fs, In (off, fs) es -> (N.to_nat off + length fs <= n)%nat /\ Forall (fun fi => func_type m fi <> None) fs) ->
+  Forall entry_ok t -> exists t', init_table t es = Some t' /\ Forall entry_ok t'.
+Proof.
+  induction es as [|[off fs] r IH]; intros t HL HE HT; cbn [init_table]; [eauto|].
+  destruct (HE off fs (or_introl eq_refl)) as [B V].
+  destruct (write_elems_ok fs t (N.to_nat off)) as (t1 & -> & L1 & F1); [lia|auto|auto|].
+  apply IH; auto; [lia|]. intros o f Hin. apply HE. now right.
+Qed.
+
+Lemma init_data_ok : forall ds mm, (forall off bs, In (off, bs) ds -> (off + N.of_nat (length bs) <= mem_len mm)%N) ->
+  exists mm', init_data mm ds = Some mm'.
+Proof.
+  induction ds as [|[off bs] r IH]; intros mm H; cbn [init_data]; [eauto|].
+  unfold in_bounds. rewrite (proj2 (N.leb_le _ _) (H off bs (or_introl eq_refl))).
+  apply IH. intros o b Hin. rewrite mem_write_len. apply H. now right.
+Qed.
+
+Lemma instantiate_ok : segments_ok -> exists s, instantiate m = Some s /\ store_ok m s.
+Proof.
+  intros [HE HD]. unfold instantiate.
+  set (t0 := match m_table m with Some n => repeat (@None nat) (N.to_nat n) | None => @nil (option nat) end).
+  assert (T0 : (match m_table m with Some n => Some (repeat None (N.to_nat n)) | None => Some [] end) = Some t0)
+    by (unfold t0; destruct (m_table m); reflexivity).
+  rewrite T0.
+  destruct (init_table_ok (length t0) (m_elems m) t0 eq_refl) as (t & -> & FT).
+  { intros off fs Hin. destruct (HE _ _ Hin) as (n & En & B & V). split; auto.
+    unfold t0. rewrite En, repeat_length. exact B. }
+  { unfold t0. destruct (m_table m); [|constructor]. apply Forall_forall. intros e He. apply repeat_spec in He. subst. exact I. }
+  unfold store_ok, has_mem, gtypes.
+  destruct (m_mem m) as [l|] eqn:EM.
+  - destruct (init_data_ok (m_data m) {| mem_pages := l_min l; mem_max := l_max l; mem_data := PositiveMap.empty Z |}) as (mm & ->).
+    { intros off bs Hin. unfold mem_len. cbn. apply HD. exact Hin. }
+    eexists. split; [reflexivity|]. cbn. split; [discriminate|]. split; [|exact FT].
+    rewrite !map_map. reflexivity.
+  - rewrite HD. eexists. split; [reflexivity|]. cbn. split; [discriminate|]. split; [|exact FT].
+    rewrite !map_map. reflexivity.
+Qed.
+
+Theorem invoke_safe fuel s fi args ft :
+  module_ok m -> host_ok host m -> store_ok m s ->
+  nth_error (ftypes m) fi = Some ft -> tys args = ft_params ft ->
+  inv_ok m ft (invoke host page_cap m fuel s fi args).
+Proof.
+  intros MOK HOK HS HF HA. destruct (type_sound_all host page_cap m MOK HOK fuel) as (_ & _ & IV). apply IV; auto.
+Qed.
+
+Theorem run_never_stuck_thm fuel fi args ft :
+  module_ok m -> segments_ok -> host_ok host m ->
+  nth_error (ftypes m) fi = Some ft -> tys args = ft_params ft ->
+  run host page_cap m fuel fi args <> Stuck.
+Proof.
+  intros MOK SEG HOK HF HA. unfold run. destruct (instantiate_ok SEG) as (s & -> & HS).
+  pose proof (invoke_safe fuel s fi args ft MOK HOK HS HF HA) as R.
+  destruct (invoke host page_cap m fuel s fi args) as [r|[s' r]]; [|discriminate].
+  destruct r; cbn in R; try contradiction; discriminate.
+Qed.
+End Run.
